@@ -142,6 +142,9 @@ def skipped_steps(effs):
 
 def run(ctx):
     _run(ctx)
+    ctx.delegate("C02", ["C02.layout"], "C05.record",
+                 "the box a shape carries is the box its record stores: each range slot of the record is written from the field of "
+                 "the same dimension and bound", floor=13)
     ctx.delegate("C19", ["C19.pred"], "C05.dims",
                  "the header Z / M ranges are grown for exactly the types that carry Z / M: has_z / has_m equal the ESRI columns", floor=28)
 
